@@ -42,6 +42,12 @@ def intSpec {k : IntKind} {sz : IntSize} (op : BinOp) (a b : PInt k sz) : Option
 
 /-! ## T1: binary operators on the eight integer types -/
 
+/-- the generated `lower_binop` is that table (11 operators × 8 types), in both profiles. -/
+theorem lower_binop_int (dbg : Bool) (op : BinOp) (k : IntKind) (sz : IntSize) (i : Instruction)
+    (h : expectedInstr op k sz = some i) :
+    lower_binop dbg op (.Primitive (.Int k sz)) = .ok i := by
+  cases op <;> cases k <;> cases sz <;> simp [expectedInstr, IntKind.signed] at h <;> subst h <;> rfl
+
 section
 variable [F : FloatOps]
 
